@@ -125,3 +125,30 @@ def check_language(model: Model, run: Run) -> None:
                              f"({', '.join(f'{s.func.split(chr(46))[-1]}:{s.line}' for s in ss)}), accepts {wtxt!r}, which is not a valid RFC 4512 "
                              f"{'attributedescription' if role == 'attribute' else 'oid'}", model.loc(FILTER, s0.node),
                              [f"pattern (folded): {s0.pattern!r}"[:300], f"shortest accepted-but-invalid string: {wtxt!r}"]))
+
+
+def valid_names_are_accepted(model: Model, run: Run, rule: str) -> None:
+    """The other direction of F4, as C13 needs it: every RFC 4512 attribute description (and every oid, where the pattern validates
+    a matching rule) is matched by the pattern the parser validates names with.  `str()` writes the names of a filter as they
+    are; a valid name the parser refuses is a filter whose text form does not parse back."""
+    from .c15 import attribute_pattern_name
+    pname = attribute_pattern_name(model)
+    sites = through_predicates(model, [s for s in find_sites(model) if s.module == FILTER and s.name == pname])
+    roles = {}
+    for s in sites:
+        roles.setdefault(site_role(model, s), []).append(s)
+    n = 0
+    for role, ss in roles.items():
+        s0 = ss[0]
+        code = Lang(build(s0.pattern, s0.flags, "match" if s0.api == "match" else "fullmatch"))
+        ref = Lang(build(rfc.ATTRIBUTEDESCRIPTION if role == "attribute" else rfc.OID, 0, "fullmatch"))
+        w = difference_witness(ref, code)
+        n += 1
+        run.ob(rule, w is None, {"role": role, "valid_but_refused": show(w) if w is not None else None})
+        if w is not None:
+            run.fail(Finding(rule, f"{FILTER}.{pname}@{role}-site", f"witness:{show(w)}",
+                             f"the pattern the parser validates a{'n attribute description' if role == 'attribute' else ' matching rule'} with does not match {show(w)!r}, "
+                             f"a valid RFC 4512 {'attributedescription' if role == 'attribute' else 'oid'}: a filter naming it is written by str() and refused by from_string",
+                             model.loc(FILTER, s0.node), [f"pattern (folded): {s0.pattern!r}"[:300]]))
+    if n == 0:
+        raise AnalysisError("no use site of the attribute pattern found")
